@@ -102,6 +102,30 @@ func trapCase(t *mon.T, allSets bool) {
 		y = dec.D{}
 		s = decimalString(r, x)
 	}
+	trapCaseOn(t, allSets, op, c, x, y, aux, s)
+}
+
+// highPrecisionTrapCase: the composite functions at several hundred digits,
+// where their float64 estimates leave their range and special paths take over.
+func highPrecisionTrapCase(t *mon.T) {
+	r := t.Rng
+	c := dec.Ctx{P: r.Range(300, 700), Emin: -100000, Emax: 100000, Mode: gen.Mode(r)}
+	switch r.Intn(4) {
+	case 0: // exp of a tiny argument: 1 + x exactly representable or not
+		x := dec.D{Form: dec.Finite, Neg: r.Bool(), C: big.NewInt(r.Range(1, 999)), E: -r.Range(300, c.P+3)}
+		trapCaseOn(t, false, "exp", c, x, dec.D{}, 0, "")
+	case 1:
+		trapCaseOn(t, false, "exp", c, gen.WithAdj(r.Bool(), big.NewInt(r.Range(1, 9999)), r.Range(-6, 1)), dec.D{}, 0, "")
+	case 2:
+		trapCaseOn(t, false, []string{"ln", "log10"}[r.Intn(2)], c, dec.D{Form: dec.Finite, C: big.NewInt(r.Range(2, 9999)), E: r.Range(-4, 2)}, dec.D{}, 0, "")
+	default:
+		trapCaseOn(t, false, []string{"sqrt", "cbrt"}[r.Intn(2)], c, dec.D{Form: dec.Finite, C: big.NewInt(r.Range(2, 9999)), E: r.Range(-4, 2)}, dec.D{}, 0, "")
+	}
+	t.Count("traps-high-precision")
+}
+
+func trapCaseOn(t *mon.T, allSets bool, op string, c dec.Ctx, x, y dec.D, aux int64, s string) {
+	r := t.Rng
 	base := callTrapped(op, c, 0, x, y, aux, s)
 	t.Eval()
 	report := func(kind, why string, traps apd.Condition, to trapOutcome) {
@@ -544,6 +568,7 @@ func runC03(r *mon.Run) {
 		"errors that occur with an empty trap set (non-convergence, zero precision) are outside this property"}
 	r.Isolated("pinned", 1, 1, 120*time.Second, pinnedC03)
 	r.Isolated("traps", r.N(24000, 1500000), 16, 1500*time.Second, func(t *mon.T) { trapCase(t, false) })
+	r.Isolated("traps-high-precision", r.N(160, 8000), 16, 3000*time.Second, highPrecisionTrapCase)
 	if !r.Quick() {
 		r.Isolated("traps-all-4096", 20000, 16, 3000*time.Second, func(t *mon.T) { trapCase(t, true) })
 	}
